@@ -83,6 +83,11 @@ class DecodeState:
             raise DecodeError(f"The bit length of {base_data_type.value} objects "
                               f"must be a multiple of 8 (is: {bit_length})")
 
+        if bit_length > 64 and base_data_type in (DataType.A_INT32, DataType.A_UINT32):
+            # e.g., because the length was specified by a length key parameter
+            raise DecodeError(f"Integers with more than 64 bits cannot be decoded "
+                              f"(bit length is {bit_length})")
+
         byte_length = (bit_length + self.cursor_bit_position + 7) // 8
         if self.cursor_byte_position + byte_length > len(self.coded_message):
             raise DecodeError(f"Expected a longer message.")
